@@ -205,6 +205,7 @@ pub fn attribute(kind: &str, out: &mut [&'static str; 6]) -> usize {
             }
         }
         "layout-dependence" => push("C09", &mut n),
+        "order-dependence" => push("C08", &mut n),
         "panic-not-propagated" => push("C11", &mut n),
         "traced-unlinked" | "alloc-unlinked" => push("C14", &mut n),
         _ => push("C02", &mut n),
